@@ -33,7 +33,7 @@ def parseSuf (s : String) : Option (Suf Tok) :=
 def runCase (w0 : List String) : String :=
   -- an optional last field names the writer entry point used on the C++ side (direct / final / stub): same model
   let w := if w0.length ≥ 15 then w0.take 14 else w0
-  -- 16th field `ints=<token hex>:<n>,…`: the tokens the writer printed for the integral reals |x| < 10^15 of this case, with their integer value
+  -- 16th field `ints=<token hex>:<n>,…`: the `%.16g` tokens of the integral reals of this case (any size), with their integer value
   let intPairs : List (Bytes × Int) := match w0.drop 15 with
     | [f] => if f.startsWith "ints=" ∧ f != "ints=-" then
         ((f.drop 5).toString.splitOn ",").filterMap (fun p => match p.splitOn ":" with
@@ -55,7 +55,12 @@ def runCase (w0 : List String) : String :=
       let good := (reals.filter (fun t => goodNumB t.1)).length
       let stoks := realEntryToks tokCodec sufs
       let sgood := (stoks.filter goodSufTokB).length
-      s!"{id} good={good}/{reals.length} goodsuf={sgood}/{stoks.length} intok={intOk}/{intPairs.length} bytes={hex b} || {showResult (readSol (fx % 2 != 0) (fx / 2 % 2 != 0) nv nc ⟨0, .all, .all, .all⟩ b)}"
+      -- exact decimal value `m·10^e` of the text of every vector value (`x` = not a decimal text)
+      let dec := ",".intercalate (reals.map (fun t => match parseDec t.1 with
+        | some (m, e) => s!"{m}:{e}"
+        | none => "x"))
+      let dec := if dec.isEmpty then "-" else dec
+      s!"{id} good={good}/{reals.length} goodsuf={sgood}/{stoks.length} intok={intOk}/{intPairs.length} dec={dec} bytes={hex b} || {showResult (readSol (fx % 2 != 0) (fx / 2 % 2 != 0) nv nc ⟨0, .all, .all, .all⟩ b)}"
     | _, _, _, _, _, _, _, _, _, _, _, _ => "bad-op"
   | _ => "bad-op"
 
